@@ -85,6 +85,7 @@ def cases(tier, seed, flavour):
             nl = n * (n + 1) // 2
             for Lv in itertools.product(pl, repeat=nl):
                 yield {'fam': 'eq', 'n': n, 'L': list(Lv), 'pal': pl}
+    yield {'fam': 'extreme'}
     structs = dom.structures(tier)
     for d in structs:
         for n in ((1, 2) if tier == 'quick' else (1, 2, 3)):
@@ -126,6 +127,29 @@ def run(case):
                             nontriv += 1
                     if len(O.viol) > 40:
                         break
+    elif case['fam'] == 'extreme':
+        # finite, positive semidefinite data so badly scaled that the one KKT solve of the direct path overflows: whatever
+        # comes back, 'optimal' may only be claimed for finite vectors and finite, small residuals (a NaN passes no test)
+        d0 = {'l': 0, 'q': [], 's': []}
+        big, tiny = 2.0 ** 500, 2.0 ** -660
+        for P in ([[1.0, 0.0], [0.0, tiny]], [[tiny, 0.0], [0.0, 1.0]], [[tiny, 0.0], [0.0, tiny]]):
+            for qv in ((1.0, big), (big, 1.0), (-big, big)):
+                for A, b in (([], []), ([[1.0, 0.0]], [1.0]), ([[1.0, 1.0]], [big])):
+                    inst = {'P': P, 'q': list(qv), 'G': [[], []], 'h': [], 'dims': d0, 'A': A, 'b': b}
+                    for cfg in EQ_CFGS:
+                        res, _ = qpsolve.call(inst, cfg)
+                        n_ev += 1
+                        lab = 'exc:' + type(res).__name__ if isinstance(res, Exception) else str(res.get('status'))
+                        outcomes['extreme:' + lab] = outcomes.get('extreme:' + lab, 0) + 1
+                        if lab == 'optimal':
+                            nontriv += 1
+                            vals = list(res['x']) + list(res['y']) + [res.get(k) for k in ('primal infeasibility', 'dual infeasibility')]
+                            if any(t is None or t != t or abs(t) == float('inf') for t in vals) or \
+                                    not (res['primal infeasibility'] <= 1e-7 and res['dual infeasibility'] <= 1e-7):
+                                O.bad('extreme:optimal-with-nonfinite-or-large-residual@' + cfg.get('entry', 'coneqp'),
+                                      "status 'optimal' with x = %r, y = %r, reported residuals %r / %r"
+                                      % (list(res['x']), list(res['y']), res['primal infeasibility'], res['dual infeasibility']),
+                                      {'instance': {'P': P, 'q': list(qv), 'A': A, 'b': b}, 'cfg': cfg})
     else:
         inst = qpsolve.planted_qp(case['dims'], case['n'], case['p'], case['variant'])
         if inst is not None:
